@@ -44,6 +44,12 @@ and the role matching refuses it):
   * nested `if`s are rebuilt as the reduced decision tree over their atomic tests in order of first appearance and written
     back with equal arms merged (`_canon_ifs`): `elif` chains, split `or` conditions, a three-way branch folded into a
     two-way one with a conditional expression, De Morgan and guard clauses give the same tree; `a > b` / `b < a` are one atom;
+  * functions defined inside a method (`def weighted_average(metric): return …`, only ever called) are inlined and
+    `(lambda x: e)(a)` is reduced (`_inline_local_defs`); `x = sorted(it, key=…, reverse=…)` = `x = [… it …]; x.sort(…)`,
+    `t = t <op> e` = `t <op>= e`, `for k, v in d.items(): d[k] = f(v)` = `for k in d.keys(): d[k] = f(d[k])`
+    (`_norm_statements`); a local naming an attribute chain (`bounds = battery.power_bounds`) is put back at every use
+    (`_inline_projection_locals`); for "has the value changed in between" an item store changes no attribute and an
+    attribute store only that attribute (`_heap_write_kinds`); unit accessors `x.as_watts()` and dict views are pure;
   * the PARAMETER ORDER of a definition whose operands can be swapped without changing the meaning (comparisons) is fixed by
     the role of an operand where the dataflow knows it (`order=` of `add`), and a comparison is rendered with the earlier
     parameter on its left (`_orient`), so `-d <= p` and `p >= -d` give the same Lean term.
@@ -651,6 +657,9 @@ def _is_pure(e: ast.AST) -> bool:
     if isinstance(e, ast.IfExp):
         return _is_pure(e.test) and _is_pure(e.body) and _is_pure(e.orelse)
     if isinstance(e, ast.Call):
+        if isinstance(e.func, ast.Attribute) and not e.keywords and (
+                (e.func.attr.startswith("as_") and not e.args) or (e.func.attr in ("keys", "values", "items") and not e.args)):
+            return _is_pure(e.func.value)  # unit accessors `x.as_watts()` and dict views
         return (ast.unparse(e.func) in PURE_CALLS and all(_is_pure(a) for a in e.args)
                 and all(k.arg is not None and _is_pure(k.value) for k in e.keywords))
     if isinstance(e, (ast.GeneratorExp, ast.ListComp)):
@@ -777,6 +786,32 @@ def _writes_heap(s: ast.stmt) -> bool:
     return any(isinstance(c, ast.Call) and ast.unparse(c.func) not in PURE_CALLS for h in _heads(s) for c in ast.walk(h))
 
 
+def _heap_write_kinds(s: ast.stmt) -> set[str] | None:
+    """How the statement itself may change objects: {"item"} for `x[k] = …` / `del x[k]`, {"attr:<a>"} for `x.a = …`;
+    `None` when it makes a call the translator does not know (which may change anything)."""
+    ts: list[ast.AST] = []
+    if isinstance(s, ast.Assign):
+        ts = list(s.targets)
+    elif isinstance(s, (ast.AugAssign, ast.AnnAssign)):
+        ts = [s.target]
+    elif isinstance(s, ast.Delete):
+        ts = list(s.targets)
+    kinds: set[str] = set()
+    while ts:
+        t = ts.pop()
+        if isinstance(t, (ast.Tuple, ast.List)):
+            ts.extend(t.elts)
+        elif isinstance(t, ast.Subscript):
+            kinds.add("item")
+        elif isinstance(t, ast.Attribute):
+            kinds.add("attr:" + t.attr)
+    for h in _heads(s):
+        for c in ast.walk(h):
+            if isinstance(c, ast.Call) and not _is_pure(c) and ast.unparse(c.func) not in PURE_CALLS:
+                return None
+    return kinds
+
+
 class _Flow:
     """Statement positions of one function: preorder index, enclosing loops, enclosing block — enough to decide
     whether the value of a pure expression evaluated at statement `d` is still the same at statement `u`."""
@@ -859,13 +894,20 @@ class _Flow:
             if l not in self.loops[id(d)] and l != di:  # `u` sits in a loop that `d` is outside of: the whole loop counts
                 lo, hi = min(lo, l), max(hi, self.end[id(self.stmts[l])] + 1)
         heap = _reads_heap(expr)
+        reads_items = any(isinstance(n, ast.Subscript) for n in ast.walk(expr)) or any(
+            isinstance(n, ast.Call) for n in ast.walk(expr))
+        read_attrs = {n.attr for n in ast.walk(expr) if isinstance(n, ast.Attribute)}
         for s in self.stmts[lo:hi]:
             if s is u and not isinstance(u, (ast.For, ast.AsyncFor)):
                 continue
             if _own_stores(s) & names:
                 return False
-            if heap and _writes_heap(s):  # aliases are not tracked: any write to an object may be a write to this one
-                return False
+            if heap and _writes_heap(s):
+                # aliases are not tracked: a write to an object may be a write to this one — but an item store (`x[k] = …`)
+                # changes no attribute and an attribute store (`x.a = …`) changes only attribute `a`
+                kinds = _heap_write_kinds(s)
+                if kinds is None or (reads_items and "item" in kinds) or (read_attrs & {k[5:] for k in kinds if k.startswith("attr:")}):
+                    return False
         return True
 
 
@@ -1241,16 +1283,167 @@ def _positional_calls(fn: ast.FunctionDef, cls: ast.ClassDef | None, tree: ast.A
         c.keywords = []
 
 
+def _inline_local_defs(fn: ast.FunctionDef) -> None:
+    """A function defined INSIDE `fn` whose body is one `return <expr>` and that is only ever called: every call is replaced
+    by the expression (parameters bound to the arguments; the variables it captures are read at the call, as before), then
+    `(lambda x: e)(a)` is reduced."""
+    for _ in range(10):
+        inner = [n for n in ast.walk(fn) if isinstance(n, ast.FunctionDef) and n is not fn and not n.decorator_list
+                 and _simple_sig(n) and _expr_body(n) is not None]
+        done = False
+        for d in inner:
+            refs = [n for n in ast.walk(fn) if isinstance(n, ast.Name) and n.id == d.name]
+            calls = [c for c in ast.walk(fn) if isinstance(c, ast.Call) and isinstance(c.func, ast.Name) and c.func.id == d.name]
+            if len(refs) != len(calls) or not calls or any(any(c is x for x in ast.walk(d)) for c in calls):
+                continue
+            if d.name in {n.id for n in ast.walk(fn) if isinstance(n, ast.Name) and isinstance(n.ctx, ast.Store)}:
+                continue
+            params = [a.arg for a in d.args.args]
+            ok = True
+            for c in calls:
+                bind = _bind_args(c, d, params)
+                if bind is None:
+                    ok = False
+                    break
+                _replace_node(fn, c, _Subst(bind).visit(copy.deepcopy(_expr_body(d))))
+            if not ok:
+                raise Bad(f"local function {d.name}: call cannot be bound")
+            for blk_owner in ast.walk(fn):
+                for f in ("body", "orelse", "finalbody"):
+                    sub = getattr(blk_owner, f, None)
+                    if isinstance(sub, list) and d in sub:
+                        sub.remove(d)
+                        if not sub:
+                            sub.append(ast.Pass())
+            done = True
+            break
+        if not done:
+            break
+    # beta reduction
+    for _ in range(50):
+        hit = next((c for c in ast.walk(fn) if isinstance(c, ast.Call) and isinstance(c.func, ast.Lambda) and not c.keywords
+                    and len(c.args) == len(c.func.args.args) and not c.func.args.defaults
+                    and all(_is_pure(a) for a in c.args)), None)
+        if hit is None:
+            break
+        lam = hit.func
+        inner_bound = {n.id for n in ast.walk(lam.body) if isinstance(n, ast.Name) and isinstance(n.ctx, ast.Store)}
+        if any(_loaded_names(a) & inner_bound for a in hit.args):
+            break
+        _replace_node(fn, hit, _Subst({p.arg: a for p, a in zip(lam.args.args, hit.args)}).visit(copy.deepcopy(lam.body)))
+    ast.fix_missing_locations(fn)
+
+
+def _norm_statements(stmts: list[ast.stmt]) -> list[ast.stmt]:
+    """`x = sorted(it, key=…, reverse=…)` -> `x = [… it …]; x.sort(key=…, reverse=…)`; `t = t <op> e` -> `t <op>= e` for a
+    pure target; `for k, v in d.items(): … d[k] = f(v)` (the value only read before the item is stored) -> `for k in
+    d.keys(): … d[k] = f(d[k])`."""
+    out: list[ast.stmt] = []
+    for s in stmts:
+        for f in ("body", "orelse", "finalbody"):
+            sub = getattr(s, f, None)
+            if isinstance(sub, list) and sub and isinstance(sub[0], ast.stmt):
+                setattr(s, f, _norm_statements(sub))
+        if isinstance(s, ast.Assign) and len(s.targets) == 1 and isinstance(s.targets[0], ast.Name) and isinstance(s.value, ast.Call) \
+                and ast.unparse(s.value.func) == "sorted" and len(s.value.args) == 1 \
+                and all(k.arg in ("key", "reverse") for k in s.value.keywords):
+            src = s.value.args[0]
+            if isinstance(src, ast.GeneratorExp):
+                src = ast.ListComp(elt=src.elt, generators=src.generators)
+            elif not isinstance(src, (ast.ListComp, ast.List)):
+                src = ast.Call(func=ast.Name(id="list", ctx=ast.Load()), args=[src], keywords=[])
+            out.append(ast.copy_location(ast.Assign(targets=[s.targets[0]], value=src), s))
+            out.append(ast.copy_location(ast.Expr(value=ast.Call(
+                func=ast.Attribute(value=ast.Name(id=s.targets[0].id, ctx=ast.Load()), attr="sort", ctx=ast.Load()),
+                args=[], keywords=s.value.keywords)), s))
+            continue
+        if isinstance(s, ast.Assign) and len(s.targets) == 1 and isinstance(s.targets[0], (ast.Name, ast.Subscript, ast.Attribute)) \
+                and isinstance(s.value, ast.BinOp) and isinstance(s.value.op, (ast.Add, ast.Sub, ast.Mult)) and _is_pure(s.targets[0]) \
+                and ast.dump(_as_load(s.targets[0])) == ast.dump(s.value.left):
+            out.append(ast.copy_location(ast.AugAssign(target=s.targets[0], op=s.value.op, value=s.value.right), s))
+            continue
+        if isinstance(s, ast.For) and not s.orelse and isinstance(s.target, ast.Tuple) and len(s.target.elts) == 2 \
+                and all(isinstance(e, ast.Name) for e in s.target.elts) and isinstance(s.iter, ast.Call) \
+                and isinstance(s.iter.func, ast.Attribute) and s.iter.func.attr == "items" and not s.iter.args and _is_pure(s.iter.func.value):
+            k, v = (e.id for e in s.target.elts)  # type: ignore[attr-defined]
+            d = s.iter.func.value
+            item = ast.Subscript(value=copy.deepcopy(d), slice=ast.Name(id=k, ctx=ast.Load()), ctx=ast.Load())
+            stores = [i for i, st in enumerate(s.body) if any(
+                isinstance(t, ast.Subscript) and isinstance(t.ctx, ast.Store) and ast.dump(_as_load(t)) == ast.dump(item) for t in ast.walk(st))]
+            v_loads = [i for i, st in enumerate(s.body) for n in ast.walk(st) if isinstance(n, ast.Name) and n.id == v and isinstance(n.ctx, ast.Load)]
+            bound = {n.id for st in s.body for n in ast.walk(st) if isinstance(n, ast.Name) and isinstance(n.ctx, ast.Store)}
+            if stores and v_loads and max(v_loads) <= min(stores) and not ({k, v} & bound) \
+                    and all(isinstance(s.body[i], (ast.Assign, ast.AugAssign)) for i in set(stores)):
+                body = [_Subst({v: item}).visit(copy.deepcopy(st)) for st in s.body]
+                keys = ast.Call(func=ast.Attribute(value=copy.deepcopy(d), attr="keys", ctx=ast.Load()), args=[], keywords=[])
+                out.extend(_norm_statements([ast.copy_location(ast.For(target=ast.Name(id=k, ctx=ast.Store()), iter=keys, body=body, orelse=[]), s)]))
+                continue
+        out.append(s)
+    return out
+
+
+def _as_load(t: ast.AST) -> ast.AST:
+    t = copy.deepcopy(t)
+    for n in ast.walk(t):
+        if hasattr(n, "ctx"):
+            n.ctx = ast.Load()
+    return t
+
+
+def _inline_projection_locals(fn: ast.FunctionDef) -> None:
+    """`x = a.b.c` (an attribute chain of a name, read any number of times while it still has the same value): the chain is
+    put back at every use, so naming a field does not change which variables a loop captures."""
+    for _ in range(50):
+        fl = _Flow(fn)
+        done = False
+        for d in fl.stmts:
+            if not (isinstance(d, ast.Assign) and len(d.targets) == 1 and isinstance(d.targets[0], ast.Name)
+                    and isinstance(d.value, ast.Attribute)):
+                continue
+            base = d.value
+            while isinstance(base, ast.Attribute):
+                base = base.value
+            if not isinstance(base, ast.Name) or base.id == "self":
+                continue
+            x = d.targets[0].id
+            if fl.single_pure_def(x) is not d:
+                continue
+            uses = [n for n in ast.walk(fn) if isinstance(n, ast.Name) and n.id == x and isinstance(n.ctx, ast.Load)]
+            if not uses or any(id(u) not in fl.owner for u in uses):
+                continue
+            if not all(fl.same_value(d, fl.owner[id(u)], d.value) for u in uses):
+                continue
+            # not below a lambda / comprehension that rebinds the base name
+            if any(isinstance(sc, (ast.Lambda, ast.GeneratorExp, ast.ListComp, ast.SetComp, ast.DictComp)) and any(n is u for n in ast.walk(sc))
+                   and base.id in ({a.arg for a in sc.args.args} if isinstance(sc, ast.Lambda) else
+                                   {n.id for g in sc.generators for n in ast.walk(g.target) if isinstance(n, ast.Name)})
+                   for u in uses for sc in ast.walk(fl.owner[id(u)])):
+                continue
+            for u in uses:
+                if not _replace_node(fl.owner[id(u)], u, copy.deepcopy(d.value)):
+                    raise Bad(f"local {x}: could not be put back")
+            blk, i = fl.block[id(d)]
+            del blk[i]
+            if not blk:
+                blk.append(ast.Pass())
+            done = True
+            break
+        if not done:
+            return
+
+
 def _norm_fn(fn: ast.FunctionDef, cls: ast.ClassDef | None, tree: ast.AST | None) -> ast.FunctionDef:
     """All normalisations of one function (a deep copy is returned)."""
     fn = copy.deepcopy(fn)
+    _inline_local_defs(fn)
     _inline_procedures(fn, cls, tree)
     locals_ = _names_bound(fn.body) | {a.arg for a in fn.args.args}
     fn = _InlineHelpers(cls, tree, locals_).visit(fn)
     _positional_calls(fn, cls, tree)
     _leading_break_to_continue(fn)
-    fn.body = _norm_block(fn.body)
+    fn.body = _norm_statements(_norm_block(fn.body))
     _inline_single_use(fn)
+    _inline_projection_locals(fn)
     _inline_bool_locals(fn)
     fn.body = _norm_block(_lift_ifexp(fn.body))
     fn.body = _canon_ifs(fn.body)
